@@ -12,7 +12,10 @@
  * drain loop is the oldest/newest; NESTMASK bit h: during the h-th body invocation NESTK other tasks run, NESTPOL oldest/
  * newest; STOLEN bit i: i-th taken task counts as stolen), and THROWAT k: the k-th user callback (global count over Body split
  * constructor, Body::operator(), Body::join, Range split constructor, Range copy constructor; KINDS masks which kinds count)
- * throws; 0 = nothing throws.
+ * throws; 0 = nothing throws. KINDS=0x03 (Body split constructor, operator()) passes on the unchanged tree. Known findings
+ * (separate harness entries, see reduce_throw_spec_snippet.py and repro_reduce_throw.cpp): KINDS=0x18 (a Range copy/split
+ * constructor throws inside small_object_allocator::new_object: the allocated storage is never released) and KINDS=0x04
+ * (Body::join throws inside fold_tree, called by finalize after the task destroyed itself).
  * Oracle: a destructor only ever runs on storage where a constructor completed, every library-made Body/Range copy is
  * destroyed exactly once and none is alive when the call returns; no constructor on storage that holds a live object; every
  * task / tree node freed exactly once (cbmc: double free, use after free); wait released exactly once and only with an empty
@@ -49,7 +52,7 @@
 #define THROWAT 0
 #endif
 #ifndef KINDS
-#define KINDS 0x1f     /* bit (kind-1): 1 Body split ctor, 2 operator(), 3 join, 4 Range split ctor, 5 Range copy ctor */
+#define KINDS 0x03     /* bit (kind-1): 1 Body split ctor, 2 operator(), 3 join, 4 Range split ctor, 5 Range copy ctor */
 #endif
 #ifndef MAXCONC
 #define MAXCONC 2
@@ -101,6 +104,7 @@ static void obj_made(u8* a, u8 kind) {
   for (int i = 0; i < MAXOBJ; i++) if (!done && !obj_kind[i]) { obj_kind[i] = kind; obj_addr[i] = a; done = 1; }
   VP_ASSERT(done, "VP bound: live user objects");
 }
+static int obj_live(u8* a, u8 kind) { int l = 0; for (int i = 0; i < MAXOBJ; i++) if (obj_kind[i] == kind && obj_addr[i] == a) l = 1; return l; }
 static void obj_gone(u8* a, u8 kind) {
   int hit = 0;
   for (int i = 0; i < MAXOBJ; i++) if (obj_kind[i] == kind && obj_addr[i] == a) { obj_kind[i] = 0; obj_addr[i] = 0; hit++; }
@@ -201,6 +205,12 @@ static void run_chain(task_t* t, ed_t* ed) {
       task_t* nx = vp_task_execute(t, ed);
       in_dispatch--;
       if (vp_exc) {                       /* catch (...): first capture wins, cancel the group, re-dispatch the same task through cancel() */
+        /* the real dispatcher now calls t->cancel(): t must still be a live task. start_reduce::finalize destroys *this BEFORE it
+           folds the tree, so an exception out of fold_tree (Body::join) leaves execute() with a dead task (known finding) */
+        if (!obj_live(vp_task_range_addr(t), 2)) {
+          VP_ASSERT(0, "reduce: exception left start_reduce::execute() after the task had destroyed itself (Body::join threw inside fold_tree called from finalize)");
+          __CPROVER_assume(0);
+        }
         n_captured++;
         VP_ASSERT(vp_exc == thrown_obj, "dispatcher caught something the user code did not throw");
         if (!captured_obj) captured_obj = vp_exc;
@@ -247,7 +257,7 @@ int main(void) {
   vp_reduce(0, NELEM, GRAIN);
   VP_ASSERT(vp_exc == 0, "an exception escaped the caller's catch");
   VP_ASSERT(n_waits == 0 || n_notify == 1, "wait released not exactly once");
-  VP_ASSERT(n_alloc == n_free, "a task or tree node was never freed");
+  VP_ASSERT(n_alloc == n_free, "reduce: storage handed out by r1::allocate never released (task / tree node leaked)");
   for (int i = 0; i < MAXOBJ; i++) VP_ASSERT(!obj_kind[i], "a Body / Range copy made by the library is still alive when the call returned (never destroyed)");
   VP_ASSERT(n_body_made == n_body_dtor && n_range_made == n_range_dtor, "constructor / destructor counts differ");
   VP_ASSERT(n_captured == thrown_in_task, "number of exceptions captured by the dispatcher differs from the number thrown inside tasks");
